@@ -629,6 +629,9 @@ public final class Driver {
         return oneline(t.getClass().getName() + (m == null ? "" : ": " + m));
     }
 
+    private static volatile byte[] pre;  // one-shot prefix of the next ENC's output buffer
+    private static volatile int skip;    // one-shot number of input bytes read before the next DEC
+
     /** Executes one command line; returns the answer (one or two lines, each newline-terminated). */
     static String handle(String[] toks) {
         String cmd = toks[0];
@@ -645,12 +648,24 @@ public final class Driver {
                     }
                 }
                 out.append("OK ").append(id).append('\n');
+            } else if (cmd.equals("PRE")) {
+                // one-shot: the next ENC finds these bytes already in the output buffer
+                pre = unhex(toks.length > 2 ? toks[2] : "");
+                out.append("OK ").append(id).append('\n');
+            } else if (cmd.equals("SKIP")) {
+                // one-shot: the next DEC starts after this many bytes of its input have been read
+                skip = toks.length > 2 ? Integer.parseInt(toks[2]) : 0;
+                out.append("OK ").append(id).append('\n');
             } else if (cmd.equals("ENC")) {
                 Object obj = build(new Cursor(toks, 2), Object.class, "?");
                 if (obj == null) {
                     throw new Unsupported("syntax nil root");
                 }
                 ByteBuf buf = Unpooled.buffer();
+                if (pre != null && pre.length > 0) {
+                    buf.writeBytes(pre);
+                }
+                pre = null;
                 call(obj, "encode", buf);
                 out.append("ENC ").append(id).append(' ');
                 written(out, buf);
@@ -662,6 +677,10 @@ public final class Driver {
                 Class<?> cls = resolve(toks[2], null);
                 byte[] data = unhex(toks.length > 3 ? toks[3] : "");
                 ByteBuf buf = Unpooled.wrappedBuffer(data);
+                if (skip > 0) {
+                    buf.skipBytes(skip);
+                }
+                skip = 0;
                 Object obj = newInstance(cls);
                 call(obj, "decode", buf);
                 int pos = buf.readerIndex();
